@@ -1344,7 +1344,8 @@ pub fn run(tier: &str) -> Report {
                         if rr.ms > SLOW_MS && seed.bytes.len() < 4096 {
                             // confirm in a fresh worker
                             let one = Case { runs: rr.bit, ..c.clone() };
-                            let again = if slow_confirmed { Some(rr.ms) } else { match run_isolated(tier, &digest, &case_line(&one)) { Iso::Result(CaseResult::Done { runs, .. }) => runs.first().map(|x| x.ms), Iso::Timeout => Some(u64::MAX), _ => None } };
+                            let known = agg.viols.get(&format!("C16:{fmt}:time-or-memory:{class}")).map_or(false, |v| v.count >= 2);
+                            let again = if slow_confirmed || known { Some(rr.ms) } else { match run_isolated(tier, &digest, &case_line(&one)) { Iso::Result(CaseResult::Done { runs, .. }) => runs.first().map(|x| x.ms), Iso::Timeout => Some(u64::MAX), _ => None } };
                             if again.map_or(false, |ms| ms > SLOW_MS) {
                                 *agg.resource_kinds.entry(format!("{fmt}:slow")).or_insert(0) += 1;
                                 agg.violation(format!("C16:{fmt}:time-or-memory:{class}"), c.id, || witness(&seeds, c, &class, run_label(rr.bit), "slow", json!({"cpu_ms": [rr.ms, again], "budget_ms": SLOW_MS})));
@@ -1352,7 +1353,8 @@ pub fn run(tier: &str) -> Report {
                         }
                     }
                     if let Some(mb) = hwm_mb {
-                        let again = match run_isolated(tier, &digest, &case_line(c)) { Iso::Result(CaseResult::Done { hwm_mb, .. }) => hwm_mb, _ => None };
+                        let known = agg.viols.get(&format!("C16:{fmt}:time-or-memory:{class}")).map_or(false, |v| v.count >= 2);
+                        let again = if known { Some(mb) } else { match run_isolated(tier, &digest, &case_line(c)) { Iso::Result(CaseResult::Done { hwm_mb, .. }) => hwm_mb, _ => None } };
                         if again.is_some() {
                             *agg.resource_kinds.entry(format!("{fmt}:memory")).or_insert(0) += 1;
                             agg.violation(format!("C16:{fmt}:time-or-memory:{class}"), c.id, || witness(&seeds, c, &class, "all", "memory", json!({"peak_rss_mb": [mb, again], "limit_mb": RSS_LIMIT_MB})));
@@ -1428,6 +1430,7 @@ pub fn run(tier: &str) -> Report {
             let (cases, capped) = gen.pairs(i, 400_000);
             if capped { capped_seeds.push(seeds[i].name.clone()); }
             if !run_cases(&gen, &mut agg, &mut rep, &cases, "pairs") { cut = Some(format!("wall cap during phase D (field-fault pairs): {done}/{} seeds", small.len())); break; }
+            gen.states[i].done = HashMap::new(); // this seed is finished: release its dedupe table
             done += 1;
         }
         if cut.is_none() { phases_done.push(format!("D: pairs of field faults (5 values each) on {} seeds <= 1700 bytes{}", small.len(), if capped_seeds.is_empty() { String::new() } else { format!("; capped at 400k pairs for {}", capped_seeds.join(",")) })); }
